@@ -634,15 +634,19 @@ def specials(rng):
     decls.append({"decl": "int total_length(const std::vector<std::string> &names)"})
     # an overload set in which a char pointer converts to the wrong candidate unless the wrapper rebuilds the std::string itself
     decls += [{"decl": "int label(const std::string &name)"}, {"decl": "int label(bool flag)"}]
+    # fortran_generic variants of a function that also needs the bufferify route (string argument): every variant trims / delimits
+    decls += [{"decl": "double tagd(const std::string &name, double arg)",
+               "fortran_generic": [{"decl": "(const std::string &name, float arg)"}, {"decl": "(const std::string &name, double arg)"}]}]
     decls += [{"decl": "int labelv(std::string name)"}, {"decl": "int labelv(bool flag)"}]          # the same with the string passed by value
-    mdecls = [{"decl": "int addmul(int a, int b = 2)"}]
-    hpp = ["int total_length(const std::vector<std::string> &names);", "int label(const std::string &name);", "int label(bool flag);", "int labelv(std::string name);", "int labelv(bool flag);",
+    # a const method whose class ALSO has a non-const overload that is not wrapped: the wrapper must call through a pointer to const
+    mdecls = [{"decl": "int addmul(int a, int b = 2)"}, {"decl": "int peekc() const"}]
+    hpp = ["int total_length(const std::vector<std::string> &names);", "int label(const std::string &name);", "int label(bool flag);", "int labelv(std::string name);", "int labelv(bool flag);", "double tagd(const std::string &name, double arg);",
            "int defs(int a, int b = 10, int c = 100);", "double defd(double x, double y = 0.0);",
            "void eq_trace_twice(double v);",
            "template<typename T> T twice(T v) { eq_trace_twice((double)v); return (T)(v + v); }",
            "int *garr(int n);", "int *gmat(int nr, int nc);", "double *gptr(int n);",
            "long gen2(long a1, long a2);", "double sum_typed(void *addr, int type, size_t size);"]
-    hmeth = ["  int addmul(int a, int b = 2);"]
+    hmeth = ["  int addmul(int a, int b = 2);", "  int peekc() const;", "  int peekc();"]
     cpp = ['int defs(int a, int b, int c) { std::cout << "callee defs(" << a << "," << b << "," << c << ")\\n"; return a + b + c; }',
            'double defd(double x, double y) { std::cout << "callee defd("; show(x); show(y); std::cout << ")\\n"; return x * 2.0 + y; }',
            'void eq_trace_twice(double v) { std::cout << "callee twice("; show(v); std::cout << ")\\n"; }',
@@ -656,9 +660,12 @@ def specials(rng):
            'int total_length(const std::vector<std::string> &names) { std::cout << "callee total_length("; int t = 0; '
            'for (size_t i = 0; i < names.size(); ++i) { std::cout << "[" << names[i] << "]"; t += (int)names[i].size(); } std::cout << ")\\n"; return t; }',
            'int label(const std::string &name) { std::cout << "callee label(string [" << name << "])\\n"; return 100 + (int)name.size(); }',
+           'double tagd(const std::string &name, double arg) { std::cout << "callee tagd([" << name << "],"; show(arg); std::cout << ")\\n"; return arg + (double)name.size(); }',
            'int labelv(std::string name) { std::cout << "callee labelv(string [" << name << "])\\n"; return 200 + (int)name.size(); }',
            'int labelv(bool flag) { std::cout << "callee labelv(bool " << (flag ? 1 : 0) << ")\\n"; return flag ? 3 : 2; }',
            'int label(bool flag) { std::cout << "callee label(bool " << (flag ? 1 : 0) << ")\\n"; return flag ? 1 : 0; }',
+           'int Thing::peekc() const { std::cout << "callee Thing::peekc() const\\n"; return v + 7; }',
+           'int Thing::peekc() { std::cout << "callee Thing::peekc() NON-const\\n"; v += 100; return v; }',
            'int Thing::addmul(int a, int b) { std::cout << "callee Thing::addmul(" << a << "," << b << ")\\n"; return (v + a) * b; }']
 
     def dshow(label, expr, typ="int"):
@@ -671,6 +678,8 @@ def specials(rng):
     cdrv += dshow("defd1", "EQ_defd_0(%r)" % v_d, "double") + dshow("defd2", "EQ_defd_1(%r, 0.75)" % v_d, "double")
     direct += dshow("addmul1", "self.addmul(%d)" % m_a) + dshow("addmul2", "self.addmul(%d, %d)" % (m_a, m_b))
     cdrv += dshow("addmul1", "EQ_Thing_addmul_0(&self_cap, %d)" % m_a) + dshow("addmul2", "EQ_Thing_addmul_1(&self_cap, %d, %d)" % (m_a, m_b))
+    direct += dshow("peekc", "static_cast<const Thing &>(self).peekc()")
+    cdrv += dshow("peekc", "EQ_Thing_peekc(&self_cap)")
     # template instantiations
     direct += dshow("twice_i", "twice<int>(%d)" % v_i) + dshow("twice_d", "twice<double>(%r)" % v_d, "double")
     cdrv += dshow("twice_i", "EQ_twice_int(%d)" % v_i) + dshow("twice_d", "EQ_twice_double(%r)" % v_d, "double")
@@ -696,6 +705,9 @@ def specials(rng):
     lab = rng.choice(["abc", "", "q r"])
     direct += dshow("label_s", "label(std::string(%s))" % cstr(lab)) + dshow("label_b", "label(true)")
     cdrv += dshow("label_s", "EQ_label_0(%s)" % cstr(lab)) + dshow("label_b", "EQ_label_1(true)")
+    tg = rng.choice(["alpha", "x y", ""])
+    direct += dshow("tagd_f", "tagd(std::string(%s), 1.5)" % cstr(tg), "double") + dshow("tagd_d", "tagd(std::string(%s), -2.25)" % cstr(tg), "double")
+    cdrv += dshow("tagd_f", "EQ_tagd(%s, 1.5)" % cstr(tg), "double") + dshow("tagd_d", "EQ_tagd(%s, -2.25)" % cstr(tg), "double")
     direct += dshow("labelv_s", "labelv(std::string(%s))" % cstr(lab)) + dshow("labelv_b", "labelv(false)")
     cdrv += dshow("labelv_s", "EQ_labelv_0((char *)%s)" % cstr(lab)) + dshow("labelv_b", "EQ_labelv_1(false)")
     direct += dshow("tlen", "total_length(std::vector<std::string>{%s})" % ", ".join(cstr(x) for x in sv))
@@ -713,6 +725,7 @@ def specials(rng):
     fbody += ["    sp_d = defd(%r_C_DOUBLE, 0.75_C_DOUBLE)" % v_d] + fshow("defd2", f_show("double", "sp_d"))
     fbody += ["    sp_i = self%%addmul(%d_C_INT)" % m_a] + fshow("addmul1", f_show("int", "sp_i"))
     fbody += ["    sp_i = self%%addmul(%d_C_INT, %d_C_INT)" % (m_a, m_b)] + fshow("addmul2", f_show("int", "sp_i"))
+    fbody += ["    sp_i = self%peekc()"] + fshow("peekc", f_show("int", "sp_i"))
     fbody += ["    sp_i = twice_int(%d_C_INT)" % v_i] + fshow("twice_i", f_show("int", "sp_i"))
     fbody += ["    sp_d = twice_double(%r_C_DOUBLE)" % v_d] + fshow("twice_d", f_show("double", "sp_d"))
     fdecl += ["    integer(C_LONG) :: sp_l", "    real(C_FLOAT), target :: sp_fa(3) = [1.5_C_FLOAT, 2.5_C_FLOAT, 3.0_C_FLOAT]",
@@ -731,6 +744,10 @@ def specials(rng):
               "    do sp_i = 1, size(sp_p1)", "        call eq_double(sp_p1(sp_i))", "    end do", "    call eq_end()"]
     fbody += ["    sp_i = label(%s)" % fstr(lab)] + fshow("label_s", f_show("int", "sp_i"))
     fbody += ["    sp_i = label(.true.)"] + fshow("label_b", f_show("int", "sp_i"))
+    fdecl += ["    character(len=%d) :: sp_tg" % (len(tg) + 3)]
+    fbody += ["    sp_tg = %s" % fstr(tg)]
+    fbody += ["    sp_d = tagd(sp_tg, 1.5_C_FLOAT)"] + fshow("tagd_f", f_show("double", "sp_d"))
+    fbody += ["    sp_d = tagd(sp_tg, -2.25_C_DOUBLE)"] + fshow("tagd_d", f_show("double", "sp_d"))
     fbody += ["    sp_i = labelv(%s)" % fstr(lab)] + fshow("labelv_s", f_show("int", "sp_i"))
     fbody += ["    sp_i = labelv(.false.)"] + fshow("labelv_b", f_show("int", "sp_i"))
     fbody += ["    sp_sv(%d) = %s" % (k + 1, fstr(x.ljust(svw))) for k, x in enumerate(sv)]
